@@ -78,4 +78,18 @@ NOTES['C16'] = {'technique': 'Lean 4 proof (index arithmetic of the regenerated 
     'note': 'Trusted: Lean kernel; translator; differential/concurrent runs bounded by generation and the Go scheduler. PARTIAL: the sequential refinement to a bounded FIFO for every operation sequence and the concurrent exactly-once invariant (all interleavings) are not mechanised; '
             'they are enforced by the oracles on every run and by skeleton equality (any reordering of the CAS/publish/jump steps breaks an obligation).'}
 
+_POL_NOTE = ('Trusted: Lean kernel; translator (sketch mixers); exact white-box differential (bounded by generated sequences); Go scheduler for the concurrent runs. '
+             'PARTIAL: the global statements (for every operation history the audit invariant holds and the bound is restored) are established by theorem only for the unlink/add/skip steps; the composition over whole '
+             'histories and all event orders is enforced by the per-call audit of every run (exact model = implementation state) and at real quiescent points, not mechanised.')
+NOTES['C04'] = {'technique': 'Lean 4 proof (policy unlink/add accounting lemmas over an exact transcription of policy.go) + exact white-box differential with per-call audit + concurrent quiescence audit + SEQ bound oracle',
+    'engine': 'proof+unit-policy+conc-policy+seq',
+    'text': 'Theorems for every policy state: an unknown (unlinked) node costs nothing on removal - no counter changes, no deque changes (no uint64 underflow); after makeDead a node is in no deque; an out-of-order add changes no deque and no counter; the eviction loop skips zero-weight entries before any eviction decision. '
+            'Tie: UNIT-policy reproduces deques/counters/evictions exactly (in-order and out-of-order), audit incl. "weightedSize <= maximum after evictNodes unless only zero-weight entries remain"; CONC-policy audits real concurrent runs; SEQ checks the bound after CleanUp against Spec incl. SetMaximum and weight-changing updates.',
+    'note': _POL_NOTE}
+NOTES['C05'] = {'technique': 'Lean 4 proof (a node is accounted for exactly while linked) + exact white-box differential with per-call audit + concurrent quiescence audit + SEQ view oracles',
+    'engine': 'proof+unit-policy+conc-policy+seq',
+    'text': 'Same model and theorems as C04 (weight accounted iff linked; removal unlinks; out-of-order add is a no-op). Tie: per-call audit (linked nodes = mapped nodes, none dead, each counter = weight sum, queue types consistent) on exact states for in-order and out-of-order event sequences; '
+            'CONC-policy: table vs deques vs counters vs Coldest/All at real quiescent points; SEQ: WeightedSize, EstimatedSize, Hottest/Coldest = All against Spec, incl. deferred executor with keys rewritten before maintenance (K1).',
+    'note': _POL_NOTE}
+
 NOT_APPLICABLE = {}
